@@ -53,6 +53,8 @@ func c11World(t *testing.T, r *simcore.Run) any {
 		}
 	}
 	gaps := tp.Bool(1, 3, "daygaps")
+	replays := tp.Bool(1, 2, "replays")
+	var pastResponses [][]byte
 	cur := -1 // attempt index
 	seenCookies := map[string]int{}
 	type reqInfo struct {
@@ -75,7 +77,18 @@ func c11World(t *testing.T, r *simcore.Run) any {
 		}
 		if d.SrcConn != nil && d.SrcConn.Host() == w.srv && dropResp[cur] {
 			r.Fault("response-lost")
+			pastResponses = append(pastResponses, append([]byte(nil), d.Payload...))
 			return nil, true
+		}
+		if d.SrcConn != nil && d.SrcConn.Host() == w.srv {
+			// a late or replayed genuine response to an earlier request of this session reaches
+			// the client ahead of the genuine one
+			defer func() { pastResponses = append(pastResponses, append([]byte(nil), d.Payload...)) }()
+			if replays && len(pastResponses) > 0 && tp.Bool(1, 3, "replay?") {
+				old := w.net.NewDatagram(d.Src, d.Dst, pastResponses[tp.Intn(len(pastResponses), "which")], "replayed response")
+				r.Fault("stale-response-replayed")
+				return []simnet.Route{{D: old, Delay: 40 * time.Microsecond}, {D: d, Delay: 120 * time.Microsecond}}, true
+			}
 		}
 		return nil, false
 	}
